@@ -168,6 +168,7 @@ def run(chk):
     from . import legacy_solver
     legacy_solver.starting(chk, repo, 'R04.5', chk.seed, K_pts)
     legacy_solver.helper_series(chk, repo, 'R04.6', chk.seed)
+    legacy_solver.initial_dispatch(chk, repo, X.Decider(seed=chk.seed, k=2), 'R04.5')
     series_tables(chk, repo)
     driver(chk, repo)
     chk.floor('R04.5', 10); chk.floor('R04.6', 6); chk.floor('R04.1', 18); chk.floor('R04.2', 15); chk.floor('R04.3', 18); chk.floor('R04.4', 12)
